@@ -89,6 +89,7 @@ type vop struct {
 	Call, Ret uint64
 	Prev, New int
 	Changed   bool
+	Unknown   bool // the write does not tell its caller the previous value (Init, writes arriving through InheritFrom / DeriveValueFrom)
 }
 
 type vcb struct {
@@ -213,6 +214,24 @@ func runVar(rng *rand.Rand) (viols []viol, st runStats) {
 			wplans[w] = append(wplans[w], wstep{kind, rng.Intn(4)})
 		}
 	}
+	// writes that do not return the previous value: at most two per run, so that the chain stays uniquely
+	// reconstructible (a segment starts at 0, one ends at Get())
+	unknownMode := []string{"none", "init", "init", "inherit", "derive"}[rng.Intn(5)]
+	nUnknown := 1 + rng.Intn(2)
+	if unknownMode == "init" {
+		for k := 0; k < nUnknown; k++ {
+			wplans[0][rng.Intn(len(wplans[0]))].Kind = "init"
+		}
+	}
+	srcYields := []int{rng.Intn(40), rng.Intn(40)}
+	R := rng.Intn(3) // readers holding the value's read lock (Variable.Read) for a few scheduling rounds
+	rplans := make([][][2]int, R)
+	for r := range rplans {
+		for k, n := 0, 2+rng.Intn(10); k < n; k++ {
+			rplans[r] = append(rplans[r], [2]int{rng.Intn(20), 1 + rng.Intn(6)})
+		}
+	}
+	st.shape += "/" + unknownMode
 	splans := make([][]sstep, S)
 	for s := range splans {
 		cyc := 1 + rng.Intn(5)
@@ -230,11 +249,6 @@ func runVar(rng *rand.Rand) (viols []viol, st runStats) {
 	tailWrites := 1 + rng.Intn(2)
 	v := reactive.NewVariable[int]()
 	var ops []vop
-	if initNZ {
-		c0 := tick()
-		v.Init(7)
-		ops = append(ops, vop{Kind: "init", W: -1, Call: c0, Ret: tick(), Prev: 0, New: 7, Changed: true})
-	}
 	var pn panics
 	start := make(chan struct{})
 	var wg sync.WaitGroup
@@ -254,6 +268,9 @@ func runVar(rng *rand.Rand) (viols []viol, st runStats) {
 				case "set":
 					o.Prev = v.Set(val)
 					o.New = val
+				case "init":
+					v.Init(val)
+					o.New, o.Unknown = val, true
 				case "compute":
 					seen := 0
 					o.Prev = v.Compute(func(cur int) int { seen = cur; return val })
@@ -273,11 +290,51 @@ func runVar(rng *rand.Rand) (viols []viol, st runStats) {
 					}
 				}
 				o.Ret = tick()
-				o.Changed = o.Prev != o.New
+				o.Changed = o.Prev != o.New || o.Unknown
 				wlogs[w] = append(wlogs[w], o)
 				progress.Add(1)
 			}
 		}(w)
+	}
+	// InheritFrom / DeriveValueFrom as writers: values written to the source arrive in v through v.Set inside the
+	// source writer's call
+	var srclog []vop
+	if unknownMode == "inherit" || unknownMode == "derive" {
+		src := reactive.NewVariable[int]()
+		if unknownMode == "inherit" {
+			v.InheritFrom(src)
+		} else {
+			v.DeriveValueFrom(reactive.NewDerivedVariable[int](func(_ int, x int) int { return x }, src))
+		}
+		wg.Add(1)
+		go func() {
+			defer wg.Done()
+			defer pn.guard("source writer")
+			<-start
+			for k := 0; k < nUnknown; k++ {
+				yield(srcYields[k])
+				val := (W+2)*100000 + k + 1
+				o := vop{Kind: unknownMode + "ed-write", W: W + 1, New: val, Unknown: true, Changed: true}
+				o.Call = tick()
+				src.Set(val)
+				o.Ret = tick()
+				srclog = append(srclog, o)
+				progress.Add(1)
+			}
+		}()
+	}
+	for r := 0; r < R; r++ {
+		wg.Add(1)
+		go func(r int) {
+			defer wg.Done()
+			defer pn.guard("reader")
+			<-start
+			for _, p := range rplans[r] {
+				yield(p[0])
+				v.Read(func(int) { yield(p[1]) })
+				_ = v.Get()
+			}
+		}(r)
 	}
 	sublogs := make([][]*vsub, S)
 	for s := 0; s < S; s++ {
@@ -303,6 +360,11 @@ func runVar(rng *rand.Rand) (viols []viol, st runStats) {
 			}
 		}(s)
 	}
+	if initNZ { // after a possible InheritFrom/DeriveValueFrom attach (which copies the zero source)
+		c0 := tick()
+		v.Init(7)
+		ops = append(ops, vop{Kind: "init", W: -1, Call: c0, Ret: tick(), Prev: 0, New: 7, Changed: true})
+	}
 	close(start)
 	wg.Wait()
 	// tail: further writes after all subscribe/unsubscribe activity, so every remaining subscription has later changes to see
@@ -318,7 +380,7 @@ func runVar(rng *rand.Rand) (viols []viol, st runStats) {
 			o.Changed = o.Prev != o.New
 			tl = append(tl, o)
 		}
-		wlogs = append(wlogs, tl)
+		wlogs = append(wlogs, tl, srclog)
 	}()
 	st.add("redundant_unsubscribe_calls", int(redundantUnsubs.Swap(0)))
 	final := v.Get()
@@ -334,7 +396,7 @@ func runVar(rng *rand.Rand) (viols []viol, st runStats) {
 
 	// ---- ground truth: the writers' chain
 	byPrev := map[int]*vop{}
-	var edges []*vop
+	var edges, unknown []*vop
 	for i := range ops {
 		o := &ops[i]
 		if o.Kind == "compute!seen" {
@@ -344,20 +406,51 @@ func runVar(rng *rand.Rand) (viols []viol, st runStats) {
 		if !o.Changed {
 			continue
 		}
+		edges = append(edges, o)
+		if o.Unknown {
+			unknown = append(unknown, o)
+			continue
+		}
 		if p, dup := byPrev[o.Prev]; dup {
 			viols = append(viols, viol{"var/writers-chain-forks", fmt.Sprintf("two writes both replaced value %d (%s by writer %d and %s by writer %d): an update was lost", o.Prev, p.Kind, p.W, o.Kind, o.W), []*vop{p, o}})
 			return
 		}
 		byPrev[o.Prev] = o
-		edges = append(edges, o)
+	}
+	st.add("writes_without_returned_previous_value", len(unknown))
+	segEnd := func(v int) int { // follow the known links
+		for n := 0; n <= len(edges); n++ {
+			e, ok := byPrev[v]
+			if !ok {
+				break
+			}
+			v = e.New
+		}
+		return v
 	}
 	pos := map[int]int{0: 0} // value -> position on the chain
 	byNew := map[int]*vop{}
 	cur := 0
-	for n := 1; ; n++ {
+	usedU := map[*vop]bool{}
+	for n := 1; n <= len(edges)+1; n++ {
 		e, ok := byPrev[cur]
 		if !ok {
-			break
+			// the successor of cur (if any) is a write with unknown previous value: the segment ending at Get() comes last
+			var cand []*vop
+			for _, u := range unknown {
+				if !usedU[u] {
+					cand = append(cand, u)
+				}
+			}
+			if len(cand) == 0 {
+				break
+			}
+			e = cand[0]
+			if len(cand) > 1 && segEnd(e.New) == final {
+				e = cand[1]
+			}
+			usedU[e] = true
+			e.Prev = cur
 		}
 		if _, loop := pos[e.New]; loop {
 			break
@@ -950,18 +1043,93 @@ func (h *hsub) handler() {
 	h.runs.Add(1)
 }
 
+// evWrite is one call of a write method the Event type exposes (its embedded Variable[bool] included).
+type evWrite struct {
+	Kind       string
+	Call, Ret  uint64
+	True       bool // writes true
+	FirstKnown bool // the call's return value says that it changed false -> true
+	Unknown    bool // writes true without telling whether it was the first
+}
+
+var evFalseKinds = []string{"set-false", "compute-false", "init-false", "toggle-reset", "defaultto-false", "inherit-false"}
+var evTrueKinds = []string{"trigger", "set-true", "compute-true", "init-true", "defaultto-true", "inherit-true"}
+
+func doEvWrite(e reactive.Event, kind string) (w evWrite) {
+	w.Kind = kind
+	w.Call = tick()
+	switch kind {
+	case "trigger":
+		w.True, w.FirstKnown = true, e.Trigger()
+	case "set-true":
+		w.True, w.FirstKnown = true, !e.Set(true)
+	case "compute-true":
+		w.True, w.FirstKnown = true, !e.Compute(func(bool) bool { return true })
+	case "init-true":
+		e.Init(true)
+		w.True, w.Unknown = true, true
+	case "defaultto-true":
+		_, upd := e.DefaultTo(true)
+		w.True, w.FirstKnown = true, upd
+	case "inherit-true":
+		src := reactive.NewVariable[bool]().Init(true)
+		e.InheritFrom(src)()
+		w.True, w.Unknown = true, true
+	case "set-false":
+		e.Set(false)
+	case "compute-false":
+		e.Compute(func(bool) bool { return false })
+	case "init-false":
+		e.Init(false)
+	case "toggle-reset":
+		reset := e.ToggleValue(true)
+		w.True, w.Unknown = true, true
+		reset()
+	case "defaultto-false":
+		e.DefaultTo(false)
+	case "inherit-false":
+		src := reactive.NewVariable[bool]()
+		e.InheritFrom(src)() // copies false, then unsubscribes
+	}
+	w.Ret = tick()
+	return
+}
+
+type evSample struct {
+	T   uint64
+	Val bool
+}
+
+type evSub struct {
+	mu  sync.Mutex
+	log [][2]bool
+}
+
+func (s *evSub) cb(prev, nw bool) {
+	s.mu.Lock()
+	s.log = append(s.log, [2]bool{prev, nw})
+	s.mu.Unlock()
+}
+
 func runEvent(rng *rand.Rand) (viols []viol, st runStats) {
 	T := 1 + rng.Intn(3)
-	nBefore, nDuring, nAfter := rng.Intn(3), 1+rng.Intn(5), rng.Intn(3)
-	st.shape = fmt.Sprintf("event/t%d/b%d/d%d/a%d", T, nBefore, nDuring, nAfter)
+	N := rng.Intn(3) // goroutines calling the other write methods (false and true) around the triggers
+	nBefore, nDuring, nAfter := rng.Intn(3), 1+rng.Intn(5), 1+rng.Intn(2)
+	st.shape = fmt.Sprintf("event/t%d/n%d/b%d/d%d/a%d", T, N, nBefore, nDuring, nAfter)
 	e := reactive.NewEvent()
 	var hs []*hsub
-	type trig struct {
-		Call, Ret uint64
-		First     bool
-	}
-	trigs := make([]trig, T)
 	var pn panics
+	var wmu sync.Mutex
+	var writes []evWrite
+	var samples []evSample
+	record := func(w evWrite) {
+		t := tick()
+		v := e.Get() && e.WasTriggered()
+		wmu.Lock()
+		writes = append(writes, w)
+		samples = append(samples, evSample{t, v})
+		wmu.Unlock()
+	}
 	reg := func(h *hsub, unsubAfter int, u sstep) {
 		h.SubCall = tick()
 		un := e.OnTrigger(h.handler)
@@ -986,6 +1154,17 @@ func runEvent(rng *rand.Rand) (viols []viol, st runStats) {
 		genUnsub(rng, &u)
 		reg(h, 0, u)
 	}
+	// OnUpdate subscribers of the event's value
+	subs := make([]*evSub, 1+rng.Intn(2))
+	for i := range subs {
+		subs[i] = &evSub{}
+		e.OnUpdate(subs[i].cb, rng.Intn(2) == 0)
+	}
+	// false writes before anything is triggered must not matter either
+	for i, n := 0, rng.Intn(3); i < n; i++ {
+		pure := []string{"set-false", "compute-false", "init-false", "defaultto-false", "inherit-false"} // (toggle-reset writes true first: not here)
+		record(doEvWrite(e, pure[rng.Intn(len(pure))]))
+	}
 	start := make(chan struct{})
 	var wg sync.WaitGroup
 	for t := 0; t < T; t++ {
@@ -998,13 +1177,34 @@ func runEvent(rng *rand.Rand) (viols []viol, st runStats) {
 			<-start
 			yield(y)
 			if noise {
-				e.Set(false)
+				record(doEvWrite(e, "set-false"))
 			}
-			trigs[t].Call = tick()
-			trigs[t].First = e.Trigger()
-			trigs[t].Ret = tick()
+			record(doEvWrite(e, "trigger"))
 			progress.Add(1)
 		}(t)
+	}
+	for n := 0; n < N; n++ {
+		plan := make([]string, 1+rng.Intn(6))
+		ys := make([]int, len(plan))
+		for i := range plan {
+			if rng.Intn(3) == 0 {
+				plan[i] = evTrueKinds[1+rng.Intn(len(evTrueKinds)-1)]
+			} else {
+				plan[i] = evFalseKinds[rng.Intn(len(evFalseKinds))]
+			}
+			ys[i] = rng.Intn(20)
+		}
+		wg.Add(1)
+		go func() {
+			defer wg.Done()
+			defer pn.guard("event writer")
+			<-start
+			for i, k := range plan {
+				yield(ys[i])
+				record(doEvWrite(e, k))
+				progress.Add(1)
+			}
+		}()
 	}
 	for i := 0; i < nDuring; i++ {
 		h := &hsub{ID: len(hs), Phase: "during"}
@@ -1028,49 +1228,107 @@ func runEvent(rng *rand.Rand) (viols []viol, st runStats) {
 	}
 	close(start)
 	wg.Wait()
-	for i := 0; i < nAfter; i++ {
-		h := &hsub{ID: len(hs), Phase: "after"}
-		hs = append(hs, h)
-		reg(h, -1, sstep{})
-	}
 	st.add("redundant_unsubscribe_calls", int(redundantUnsubs.Swap(0)))
-	if len(pn.rec) > 0 {
-		viols = append(viols, viol{"event/panic", "panic inside a reactive.Event operation: " + pn.rec[0].Value, pn.rec})
-		return
-	}
 	dump := func() any {
 		var l []map[string]any
 		for _, h := range hs {
 			l = append(l, map[string]any{"id": h.ID, "phase": h.Phase, "subCall": h.SubCall, "subRet": h.SubRet, "unsub": h.Unsub, "unsubCall": h.UnsubCall, "unsubRet": h.unsubRet.Load(), "runs": h.runs.Load(), "firstIn": h.FirstIn.Load()})
 		}
-		return map[string]any{"triggers": trigs, "handlers": l}
+		var sl [][][2]bool
+		for _, s := range subs {
+			sl = append(sl, s.log)
+		}
+		return map[string]any{"writes": writes, "handlers": l, "onupdate_logs": sl}
 	}
-	firsts := 0
-	var firstRet uint64
-	for _, t := range trigs {
-		if t.First {
-			firsts++
-			firstRet = t.Ret
+	if len(pn.rec) > 0 {
+		viols = append(viols, viol{"event/panic", "panic inside a reactive.Event operation: " + pn.rec[0].Value, pn.rec})
+		return
+	}
+	// ---- after Trigger has returned: every write method with false, then re-trigger and late handlers
+	post := append([]string(nil), evFalseKinds...)
+	rng.Shuffle(len(post), func(i, j int) { post[i], post[j] = post[j], post[i] })
+	func() {
+		defer pn.guard("post-trigger writes")
+		if !e.Get() || !e.WasTriggered() {
+			viols = append(viols, viol{"event/value-false-after-trigger", "Trigger() has returned and all writers have been joined, but WasTriggered()/Get() is false (a concurrent write of false un-triggered the event)", dump()})
+			return
+		}
+		for _, k := range post {
+			w := doEvWrite(e, k)
+			st.add("event_false_writes_after_trigger", 1)
+			if !e.Get() || !e.WasTriggered() {
+				writes = append(writes, w)
+				viols = append(viols, viol{"event/untriggered-by/" + k, "after Trigger() had returned, " + k + " made WasTriggered()/Get() false again", dump()})
+				return
+			}
+			record(w)
+		}
+		if w := doEvWrite(e, "trigger"); w.FirstKnown {
+			viols = append(viols, viol{"event/retrigger-returned-true", "Trigger() on an already triggered event returned true", dump()})
+		}
+		for i := 0; i < nAfter; i++ {
+			h := &hsub{ID: len(hs), Phase: "after"}
+			hs = append(hs, h)
+			reg(h, -1, sstep{})
+		}
+	}()
+	if len(pn.rec) > 0 {
+		viols = append(viols, viol{"event/panic", "panic inside a reactive.Event operation: " + pn.rec[0].Value, pn.rec})
+		return
+	}
+	if len(viols) > 0 {
+		return
+	}
+	// ---- exactly one write turned the event true
+	knownFirsts, unknownTrue := 0, 0
+	var triggeredBy uint64 // from this tick on the event is triggered for sure
+	for _, w := range writes {
+		if w.FirstKnown {
+			knownFirsts++
+		}
+		if w.Unknown {
+			unknownTrue++
+		}
+		if w.True && (triggeredBy == 0 || w.Ret < triggeredBy) {
+			triggeredBy = w.Ret
 		}
 	}
-	st.ops = T
-	if firsts != 1 {
-		viols = append(viols, viol{"event/trigger-first-count", fmt.Sprintf("%d of %d concurrent Trigger() calls returned true", firsts, T), dump()})
+	st.ops = len(writes)
+	if knownFirsts > 1 || knownFirsts+unknownTrue < 1 {
+		viols = append(viols, viol{"event/trigger-first-count", fmt.Sprintf("%d calls reported that they triggered the event first (%d further true-writes do not tell)", knownFirsts, unknownTrue), dump()})
 		return
 	}
-	if !e.WasTriggered() || !e.Get() {
-		viols = append(viols, viol{"event/not-triggered-after-trigger", "WasTriggered() is false after Trigger() returned", dump()})
-		return
+	for _, sm := range samples {
+		if sm.T > triggeredBy && !sm.Val {
+			viols = append(viols, viol{"event/value-false-after-trigger", "Get()/WasTriggered() returned false after a call that triggers the event had returned", dump()})
+			return
+		}
+	}
+	for _, s := range subs {
+		ups := 0
+		for _, c := range s.log {
+			if c[0] && !c[1] {
+				viols = append(viols, viol{"event/subscriber-saw-true-to-false", "an OnUpdate subscriber of the event was told true -> false", dump()})
+				return
+			}
+			if c[1] {
+				ups++
+			}
+		}
+		if ups != 1 {
+			viols = append(viols, viol{"event/subscriber-trigger-count", fmt.Sprintf("an OnUpdate subscriber registered before the trigger was told 'true' %d times", ups), dump()})
+			return
+		}
 	}
 	for _, h := range hs {
 		st.subs++
 		n := int(h.runs.Load())
 		st.callbacks += n
-		for _, t := range trigs {
-			if t.Call < h.SubRet && t.Ret > h.SubCall {
+		for _, w := range writes {
+			if w.True && w.Call < h.SubRet && w.Ret > h.SubCall {
 				st.overlapPairs++
 				st.nontrivial = true
-				if t.First {
+				if w.FirstKnown {
 					st.handoff++
 				}
 			}
@@ -1080,7 +1338,7 @@ func runEvent(rng *rand.Rand) (viols []viol, st runStats) {
 			viols = append(viols, viol{"event/handler-ran-more-than-once", fmt.Sprintf("OnTrigger handler (%s) ran %d times", h.Phase, n), dump()})
 		case h.afterUnsub.Load() > 0:
 			viols = append(viols, viol{"event/handler-after-unsubscribe", "OnTrigger handler started after its unsubscribe call had returned", dump()})
-		case n == 0 && (!h.Unsub || firstRet < h.UnsubCall):
+		case n == 0 && (!h.Unsub || triggeredBy < h.UnsubCall):
 			viols = append(viols, viol{"event/handler-never-ran", fmt.Sprintf("OnTrigger handler registered %s Trigger never ran (unsubscribed=%v)", h.Phase, h.Unsub), dump()})
 		}
 	}
@@ -1176,7 +1434,7 @@ func run(c *vf.Ctx) {
 		}
 		return
 	}
-	c.SetRule("one evaluation = one run: a fresh reactive Variable / Set / Event driven by 1-4 seeded writer goroutines (Set, Compute, DefaultTo; Add, Delete, AddAll, DeleteAll, Apply, Compute, Replace; Trigger) racing with 1-6 goroutines that subscribe and unsubscribe at seeded points (with/without triggerWithInitialZeroValue, slow callbacks; unsubscribe functions are called 1-3 times, redundant calls sequentially or from other goroutines), followed by tail writes after all subscription activity, checked after join against the writers' own chain / returned mutations / exact single-writer model; runs are distinct by construction (run seed); distinct_nontrivial counts runs in which at least one OnUpdate/OnTrigger call overlapped (by logical ticks) a value-changing write")
+	c.SetRule("one evaluation = one run: a fresh reactive Variable / Set / Event driven by 1-4 seeded writer goroutines (Set, Compute, DefaultTo, Init, writes arriving through InheritFrom/DeriveValueFrom, readers holding Variable.Read; on events every write method with true and false around and after Trigger; Add, Delete, AddAll, DeleteAll, Apply, Compute, Replace; Trigger) racing with 1-6 goroutines that subscribe and unsubscribe at seeded points (with/without triggerWithInitialZeroValue, slow callbacks; unsubscribe functions are called 1-3 times, redundant calls sequentially or from other goroutines), followed by tail writes after all subscription activity, checked after join against the writers' own chain / returned mutations / exact single-writer model; runs are distinct by construction (run seed); distinct_nontrivial counts runs in which at least one OnUpdate/OnTrigger call overlapped (by logical ticks) a value-changing write")
 	total := c.Pick(20000, 600000)
 	share := map[string]int{"var": total * 45 / 100, "set": total * 45 / 100, "event": total * 10 / 100}
 	chunk := c.Pick(500, 6000)
@@ -1203,6 +1461,8 @@ func run(c *vf.Ctx) {
 	c.Require("handoff_windows", max(10, c.Pick(20, 500)*par/4))
 	c.Require("runs_race_build", total/5)
 	c.Require("redundant_unsubscribe_calls", total/2)
+	c.Require("writes_without_returned_previous_value", total/10) // Init / InheritFrom / DeriveValueFrom as writers
+	c.Require("event_false_writes_after_trigger", total/10*5)     // every write method with false after Trigger (6 per event run)
 	c.Require("nontrivial", max(100, c.Pick(300, 10000)*par/4))
 }
 
